@@ -71,8 +71,8 @@ def cmp(x,y):
     if isinstance(x, dict):
         if lx == 0:
             return 0
-        xk, xv = zip(*sorted(x.items()))
-        yk, yv = zip(*sorted(y.items()))
+        xk, xv = zip(*sorted(x.items(), key = lambda item: Cmp(item[0])))
+        yk, yv = zip(*sorted(y.items(), key = lambda item: Cmp(item[0])))
         c = cmparr(xk, yk)
         if c!=0:
             return c
